@@ -17,6 +17,7 @@ import (
 	toml "github.com/pelletier/go-toml"
 	"github.com/vimeo/dials"
 	"github.com/vimeo/dials/ez"
+	"github.com/vimeo/dials/tagformat/caseconversion"
 	stdflagsrc "github.com/vimeo/dials/sources/flag"
 	pflagsrc "github.com/vimeo/dials/sources/pflag"
 	yaml "gopkg.in/yaml.v2"
@@ -81,7 +82,9 @@ type c18Cfg struct {
 	Phi        []string      `dials:"phi"`
 	Chi        uint16        `dials:"chi"`
 	Nest       c18Nest       `dials:"nest"`
-	scn        *c18Scn
+	// a set: files spell it as a list (ez adds the set-to-slice conversion unless told not to)
+	Tags map[string]struct{} `dials:"tags"`
+	scn  *c18Scn
 }
 
 var errC18Invalid = errors.New("harness: c18 config invalid")
@@ -181,6 +184,18 @@ func c18Render(format string, doc map[string]any) []byte {
 	return b
 }
 
+// c18Recase renders the document's keys in kebab case (the FileFieldNameEncoder of the case).
+func c18Recase(doc map[string]any) map[string]any {
+	out := map[string]any{}
+	for k, v := range doc {
+		if m, ok := v.(map[string]any); ok {
+			v = c18Recase(m)
+		}
+		out[strings.ReplaceAll(k, "_", "-")] = v
+	}
+	return out
+}
+
 func c18WriteAtomic(path string, data []byte) error {
 	tmp := path + ".tmp"
 	if err := os.WriteFile(tmp, data, 0o644); err != nil {
@@ -276,6 +291,17 @@ func runC18(w *fw.Worker) {
 			}
 			want.Marker = "from-file"
 		}
+		// the set-typed leaf comes from the file only
+		if mode != "no-file" && mode != "empty-path-reported-set" && r.Chance(60) {
+			n++
+			doc["tags"] = []string{fmt.Sprintf("t%d", n), "u"}
+			want.Tags = map[string]struct{}{fmt.Sprintf("t%d", n): {}, "u": {}}
+		}
+		// some applications spell file keys differently from the dials tags
+		kebab := r.Chance(35)
+		if kebab {
+			doc = c18Recase(doc)
+		}
 		text := c18Render(format, doc)
 		switch mode {
 		case "malformed-file":
@@ -286,7 +312,7 @@ func runC18(w *fw.Worker) {
 			os.WriteFile(path, text, 0o644)
 		}
 		defer os.Remove(path)
-		desc := map[string]any{"format": format, "by_extension": byExt, "flag_source": flagKind, "watch": watch, "path_from": pathFrom, "mode": mode, "argv": argv, "document": string(text), "env": os.Environ(), "need_marker": scn.needMarker}
+		desc := map[string]any{"format": format, "by_extension": byExt, "flag_source": flagKind, "watch": watch, "path_from": pathFrom, "mode": mode, "argv": argv, "document": string(text), "env": os.Environ(), "need_marker": scn.needMarker, "file_keys_kebab": kebab}
 		params := ez.Params[c18Cfg]{WatchConfigFile: watch,
 			OnNewConfig: func(context.Context, *c18Cfg, *c18Cfg) { scn.mu.Lock(); scn.newCfg++; scn.mu.Unlock() },
 			OnWatchedError: func(_ context.Context, err error, _, _ *c18Cfg) {
@@ -294,6 +320,10 @@ func runC18(w *fw.Worker) {
 				scn.watchedErr = append(scn.watchedErr, err.Error())
 				scn.mu.Unlock()
 			},
+		}
+		if kebab {
+			params.DialsTagNameDecoder = caseconversion.DecodeLowerSnakeCase
+			params.FileFieldNameEncoder = caseconversion.EncodeKebabCase
 		}
 		twice := false
 		switch flagKind {
@@ -420,11 +450,18 @@ func runC18(w *fw.Worker) {
 		if watch && mode == "ok" {
 			// rewrite the file: new values for the file-assigned leaves; precedence must hold again
 			doc2 := map[string]any{"marker": "from-file-2"}
+			if want.Tags != nil {
+				n++
+				doc2["tags"] = []string{fmt.Sprintf("t%d", n)}
+			}
 			want2 := want
 			want2.Marker = "from-file-2"
+			if l, ok := doc2["tags"].([]string); ok {
+				want2.Tags = map[string]struct{}{l[0]: {}}
+			}
 			for k, v := range doc {
-				if k == "config_file" {
-					doc2[k] = v
+				if k == "config_file" || k == "config-file" {
+					doc2["config_file"] = v
 				}
 			}
 			// recompute: a leaf currently showing the file's value (no env/flag override) changes
@@ -442,6 +479,9 @@ func runC18(w *fw.Worker) {
 				}
 			}
 			before := len(scn.verifyCalls)
+			if kebab {
+				doc2 = c18Recase(doc2)
+			}
 			if err := c18WriteAtomic(path, c18Render(format, doc2)); err != nil {
 				w.Note("rewrite failed: " + err.Error())
 				return
@@ -477,7 +517,7 @@ func runC18(w *fw.Worker) {
 			}
 		}
 		if multi > 0 {
-			w.Distinct(fmt.Sprintf("%s|%v|%s|%s|%v|%s", format, byExt, flagKind, pathFrom, watch, matrix.String()))
+			w.Distinct(fmt.Sprintf("%s|%v|%s|%s|%v|%v|%v|%s", format, byExt, flagKind, pathFrom, watch, kebab, want.Tags != nil, matrix.String()))
 		}
 		if i%67 == 0 {
 			w.Sample(desc)
